@@ -300,14 +300,27 @@ def gen_streams(run):
     sd = lowpass if fam == "lowpass" else highpass
     for name in names_of(sd):
       for vi in range(3):
-        yield (fam, name, vi, "both")
+        for ck in CKINDS:
+          yield (fam, name, vi, "both", ck)
   for name in names_of(resonator):
     for vi in range(3):
       for which in ("both", "freq", "bandwidth"):
-        yield ("resonator", name, vi, which)
+        for ck in CKINDS:
+          yield ("resonator", name, vi, which, ck)
   for vi in range(3):
     for which in ("both", "freq", "bandwidth"):
-      yield ("gammatone", "klapuri", vi, which)
+      for ck in CKINDS:
+        yield ("gammatone", "klapuri", vi, which, ck)
+
+
+# a "stream-valued" parameter may be handed over as any iterable
+CKINDS = ["stream", "list", "tuple", "iter", "generator"]
+
+
+def as_kind(ck, vals):
+  vals = list(vals)
+  return {"stream": lambda: Stream(vals), "list": lambda: vals, "tuple": lambda: tuple(vals),
+          "iter": lambda: iter(vals), "generator": lambda: (v for v in vals)}[ck]()
 
 
 PARAM_LISTS = [[0.3, 1.2, 2.9, 0.01, pi / 2, 1.0], [pi / 2, pi / 2 + 1e-9, 0.5], [1e-3, pi - 1e-3, 2.0, 2.0, 0.7]]
@@ -315,18 +328,31 @@ BW_LISTS = [[0.1, 0.5, 0.02, 1.0, 0.3, 0.3], [0.25, 0.5, 1e-3], [1.0, 0.7, 0.05,
 
 
 def run_streams(case):
-  fam, name, vi, which = case
+  fam, name, vi, which, ck = case
+  if ck != "stream":
+    # Other iterables are not promised to be accepted everywhere (several designs do arithmetic on
+    # the parameter before wrapping it): a TypeError is "unsupported", but an accepted iterable must
+    # give the stream design
+    try:
+      return run_streams_inner(case)
+    except TypeError:
+      return R(None, False, (fam, which, ck, "unsupported"))
+  return run_streams_inner(case)
+
+
+def run_streams_inner(case):
+  fam, name, vi, which, ck = case
   fs, bs = PARAM_LISTS[vi], BW_LISTS[vi]
   n = len(fs)
   if fam in ("lowpass", "highpass"):
     sd = lowpass if fam == "lowpass" else highpass
-    f = sd[name](Stream(list(fs)))
+    f = sd[name](as_kind(ck, fs))
     tabs = [coef_table(f, n)]
     refs = [[coef_table(sd[name](c), 1) for c in fs]]
   else:
     design = resonator[name] if fam == "resonator" else gammatone[name]
-    fa = Stream(list(fs)) if which in ("both", "freq") else fs[0]
-    ba = Stream(list(bs)) if which in ("both", "bandwidth") else bs[0]
+    fa = as_kind(ck, fs) if which in ("both", "freq") else fs[0]
+    ba = as_kind(ck, bs) if which in ("both", "bandwidth") else bs[0]
     out = design(fa, ba)
     secs = list(out) if fam == "gammatone" else [out]
     tabs = [coef_table(s, n) for s in secs]
@@ -352,7 +378,7 @@ def run_streams(case):
                      "constant design's, sample by sample",
                      {"family": fam, "strategy": name, "section": si, "sample": i, "coefficient": list(k), "value": e},
                      got[i])
-  return R(None, True, (fam, which))
+  return R(None, True, (fam, which, ck))
 
 
 KINDS = OrderedDict([
